@@ -1282,6 +1282,25 @@ class unyt_array(np.ndarray):
         """
         return self.view(np.ndarray).argsort(axis, kind, order)
 
+    def round(self, decimals=0, out=None):
+        """
+        Return the array with each element rounded to the given number of
+        decimals, in the same units.
+
+        See the documentation of ndarray.round for details.
+        """
+        return np.around(self, decimals=decimals, out=out)
+
+    def trace(self, offset=0, axis1=0, axis2=1, dtype=None, out=None):
+        """
+        Return the sum along diagonals of the array, in the same units.
+
+        See the documentation of ndarray.trace for details.
+        """
+        return np.trace(
+            self, offset=offset, axis1=axis1, axis2=axis2, dtype=dtype, out=out
+        )
+
     @classmethod
     def from_astropy(cls, arr, unit_registry=None):
         """
